@@ -43,7 +43,7 @@ single waker: exchange(release) then wake_all; batch waker: relaxed load, CAS-cl
 theorem gen_wake_code :
     skel_block_slow = Skel.block_slow ∧ skel_spin_slow = Skel.spin_slow ∧ skel_wait = Skel.wait ∧
     skel_wakeup_waiters = Skel.wakeup_waiters ∧ skel_set_version_and_wakeup = Skel.set_version_and_wakeup ∧
-    waiterInc = 65536 ∧ waiterThreshold = 65535 ∧ spinUsleep = 1000 := by decide
+    waiterInc = 65536 ∧ waiterThreshold = 65535 ∧ waiterThresholdOps = ["<=", "<=", "<="] ∧ spinUsleep = 1000 := by decide
 /-- the batch releases end with: release fence, relaxed version stores, **seq_cst fence**, wakeup_waiters -/
 theorem gen_batch_wake_fence :
     skel_deal_n = Skel.deal_n ∧ skel_try_deal_n = Skel.try_deal_n ∧
